@@ -1,5 +1,6 @@
 CONSTANT MaxExt = 1000000
 CONSTANT MaxSG = 1000000
+CONSTANT MaxUx = 1000000
 CONSTANT MaxMeta = 1000000
 CONSTANT MaxFeed = 1000000
 CONSTANT MaxCache = 1000000
